@@ -57,6 +57,12 @@ def gen(rng, tier, n):
                                                              {"name": "P", "tag": 'json:"p"', "t": {"k": "named", "name": nm}},
                                                              {"name": "S", "tag": 'json:"s,omitempty"', "t": {"k": "slice", "e": {"k": "ptr", "e": {"k": "named", "name": nm}}}}]},
                                 {"k": "map", "key": "string", "e": {"k": "named", "name": nm}}, {"k": "named", "name": "Twice"}])
+        elif r < 0.17:
+            # the declared two-level embedding of the bank: an override for the innermost (or the middle) embedded type
+            t = {"k": "named", "name": rng.choice(["DocT", "DocP", "BaseT"])}
+            if rng.random() < 0.3:
+                t = {"k": rng.choice(["slice", "ptr"]), "e": t}
+            opts["typeSchemas"] = [{"name": rng.choice(["IDt", "IDt", "BaseT"]), "schema": rng.choice(TS_EMBED_POOL)}]
         elif r < 0.3 and gt.GEN["embedding"]:
             # a TypeSchemas override for a type that is embedded (directly or two levels down) in the type under inference
             outer = rng.choice(sorted(gt.GEN["embedding"]))
